@@ -325,16 +325,20 @@ def run(ctx) -> None:
 
     # ---------------- R4 -------------------------------------------------------------------------------
     ctx.analysed(cv)
-    loops = [x for x in source.walk_own(cv) if isinstance(x, ast.For) and isinstance(x.iter, ast.Name) and x.iter.id == "component_identifiers"]
+    # role: the identifiers recomputed from the description = the local bound to get_component_identifiers(..)
+    CIDS = match.role(cv, lambda v: isinstance(v, ast.Call) and last_attr(v) == "get_component_identifiers", "component_identifiers")
+    loops = [x for x in source.walk_own(cv) if isinstance(x, ast.For) and isinstance(x.iter, ast.Name) and x.iter.id == CIDS]
     ctx.require(bool(loops), "anchor missing: loop over component_identifiers in FlowIRConcrete.validate")
     lp = loops[0]
     early = [x for x in ast.walk(lp) if isinstance(x, (ast.Break, ast.Return))]
     ctx.ob("C11.R4-every-component-resolved", lp, not early, "the loop visits every component (no break/return)" if not early else
            "the validation loop can stop early (break/return): components after the first problem are not checked")
-    ids = match.assigned_value(cv, "component_identifiers")
+    ids = match.assigned_value(cv, CIDS)
     ok = any(isinstance(v, ast.Call) and last_attr(v) == "get_component_identifiers" and v.args and isinstance(v.args[0], ast.Constant) and v.args[0].value is True for v in ids)
     ctx.ob("C11.R4-every-component-resolved", ids[0] if ids else cv, ok, "identifiers are recomputed from the description (duplicates are detected)" if ok else
            "component identifiers are not recomputed (get_component_identifiers(True))")
+    _vr = [r.value.id for r in source.walk_own(cv) if isinstance(r, ast.Return) and isinstance(r.value, ast.Name)]
+    OUTERR = _vr[-1] if _vr else "out_errors"       # the list of errors that validate() returns
     gcc = [c for c in source.calls_in(lp) if last_attr(c) == "get_component_configuration"]
     ok = False
     for c in gcc:
@@ -342,7 +346,7 @@ def run(ctx) -> None:
         raw_ok = isinstance(kw.get("raw"), ast.Constant) and kw["raw"].value is False
         tries = [a for a in source.ancestors(c) if isinstance(a, ast.Try) and any(any(c is x for x in ast.walk(s)) for s in a.body)]
         caught = bool(tries) and any(escape.handler_types(h) is None or "Exception" in (escape.handler_types(h) or set()) for h in tries[0].handlers)
-        records = bool(tries) and any(isinstance(x, ast.Call) and last_attr(x) == "append" and dotted(x.func.value) == "out_errors"
+        records = bool(tries) and any(isinstance(x, ast.Call) and last_attr(x) == "append" and dotted(x.func.value) == OUTERR
                                       for h in tries[0].handlers for x in ast.walk(h))
         ok = raw_ok and caught and records
     ctx.ob("C11.R4-every-component-resolved", gcc[0] if gcc else lp, ok,
@@ -350,5 +354,5 @@ def run(ctx) -> None:
            "components are not resolved with raw=False inside a recording catch-all: an undefined variable is not reported "
            "(or surfaces as another exception type)")
     rets = [r for r in source.walk_own(cv) if isinstance(r, ast.Return)]
-    ok = len(rets) == 1 and isinstance(rets[0].value, ast.Name) and rets[0].value.id == "out_errors"
+    ok = len(rets) == 1 and isinstance(rets[0].value, ast.Name) and rets[0].value.id == OUTERR
     ctx.ob("C11.R4-every-component-resolved", rets[0] if rets else cv, ok, "validate returns the collected errors" if ok else "validate does not return out_errors")
